@@ -62,7 +62,8 @@ pub enum C02Case {
         order: Vec<u16>,
         /// further unsigned digests in the signature header: bit 0 MD5 present, bit 1 SHA1
         /// present, bit 2 MD5 recorded wrongly, bit 3 SHA1 recorded wrongly, bits 4-5 how wrong digests
-        /// are wrong (0 other digest, 1 strict prefix of the true one, 2 true one plus extra bytes)
+        /// are wrong (0 other digest, 1 strict prefix of the true one, 2 true one plus extra bytes),
+        /// bits 6-7 an unsigned size entry (1 SIZE / 2 LONGSIZE understating the file, 3 SIZE exact)
         #[serde(default)]
         more_digests: u8,
     },
@@ -354,7 +355,7 @@ impl Property for C02 {
         vec!["the converse (a correctly signed package must verify) is not part of the statement and not asserted here (C10 covers it)".into()]
     }
     fn required_labels(&self, _t: Tier) -> Vec<&'static str> {
-        vec!["base-legacy-tag-only", "base-header+payload-tag", "recording", "returned-ok", "verifier-consulted", "openpgp-zero-entries", "openpgp-wrong-type", "legacy-pgp-tag", "bitflip-differs", "bitflip-fixup", "bitflip-sig-rebuilt", "appended-entry-differs", "appended-entry-sig-rebuilt", "all-accepted-but-digest-wrong", "permuted-sig-index", "wrong-digest-of-other-length"]
+        vec!["base-legacy-tag-only", "base-header+payload-tag", "recording", "returned-ok", "verifier-consulted", "openpgp-zero-entries", "openpgp-wrong-type", "legacy-pgp-tag", "bitflip-differs", "bitflip-fixup", "bitflip-sig-rebuilt", "appended-entry-differs", "appended-entry-sig-rebuilt", "all-accepted-but-digest-wrong", "permuted-sig-index", "wrong-digest-of-other-length", "size-entry-understates"]
     }
     fn phases(&self, tier: Tier) -> Vec<Phase<C02Case>> {
         let mut flips: Vec<(u8, u32)> = vec![];
@@ -382,7 +383,7 @@ impl Property for C02 {
                         prop::bool::weighted(0.85),
                         proptest::option::weighted(0.5, prop::bool::weighted(0.85)),
                         (prop_oneof![3 => Just(vec![true; 6]), 2 => proptest::collection::vec(any::<bool>(), 0..5), 1 => proptest::collection::vec(prop::bool::weighted(0.8), 4)], proptest::collection::vec(0u8..5, 6)),
-                        (prop_oneof![1 => Just(vec![]), 1 => proptest::collection::vec(0u16..8, 8)], prop_oneof![2 => Just(0u8), 2 => Just(3u8), 2 => 0u8..64]),
+                        (prop_oneof![1 => Just(vec![]), 1 => proptest::collection::vec(0u16..8, 8)], prop_oneof![2 => Just(0u8), 2 => Just(3u8), 2 => 0u8..64, 2 => any::<u8>()]),
                     )
                         .prop_map(|(payload, openpgp, rsa, dsa, pgp, digests_ok, payload_digest, (answers, reject_kinds), (order, more_digests))| C02Case::Recording { payload, openpgp, rsa, dsa, pgp, digests_ok, payload_digest, answers, reject_kinds, order, more_digests })
                         .boxed()
@@ -547,6 +548,22 @@ fn recording(o: &mut Outcome, payload: &[u8], openpgp: &Option<SigVal>, rsa: &Op
     }
     if more_digests & 2 != 0 {
         sig.push((tags::SIG_SHA1, Val::s(&if more_digests & 8 == 0 { digests::sha1_hex(&[&hb]) } else { wrong_hex(digests::sha1_hex(&[&hb]), digests::sha1_hex(&[&hb, b"!"])) })));
+    }
+    // an (unsigned) size entry, exact or understating what follows the signature header: what a
+    // signature has to cover is the header and the payload as they are in the file
+    let total = (hb.len() + payload.len()) as u64;
+    let under = total.saturating_sub(1 + (payload.len() as u64).min(3));
+    match more_digests >> 6 {
+        1 => {
+            o.label("size-entry-understates");
+            sig.push((tags::SIG_SIZE, Val::Int32(vec![under as u32])));
+        }
+        2 => {
+            o.label("size-entry-understates");
+            sig.push((tags::SIG_LONGSIZE, Val::Int64(vec![under])));
+        }
+        3 => sig.push((tags::SIG_SIZE, Val::Int32(vec![total as u32]))),
+        _ => {}
     }
     sig.sort_by_key(|e| e.0);
     // the data of the entries stays where it is; only the order of the index records varies
